@@ -5,6 +5,7 @@ import (
 	"encoding/json"
 	"fmt"
 	"math"
+	"os"
 	"reflect"
 	"sort"
 	"strings"
@@ -68,7 +69,17 @@ type c16Rec struct {
 }
 
 var c16Kinds = []string{"int", "int8", "int16", "int32", "int64", "uint", "uint8", "uint16", "uint32", "uint64", "float32", "float64", "string", "bool",
-	"slice-int", "slice-any", "array", "map", "struct", "ptr-struct", "ptr-int", "nil", "nil-ptr", "nested"}
+	"slice-int", "slice-any", "array", "map", "struct", "ptr-struct", "ptr-int", "nil", "nil-ptr", "nested",
+	"duration", "month", "filemode", "named-string", "named-bool", "ptr-duration"}
+
+// named types with methods of their own: what is stored is the value, not what String() prints
+type c16Str string
+
+func (s c16Str) String() string { return "<" + string(s) + ">" }
+
+type c16Bool bool
+
+func (b c16Bool) String() string { return "yes/no" }
 
 // mkValue instantiates a value for instance inst: same kind for every instance, different content.
 func mkValue(s valSpec, inst int) any {
@@ -137,6 +148,19 @@ func mkValue(s valSpec, inst int) any {
 	case "nil-ptr":
 		var p *c16Rec
 		return p
+	case "duration":
+		return time.Duration(small) * time.Second
+	case "ptr-duration":
+		v := time.Duration(small) * time.Millisecond
+		return &v
+	case "month":
+		return time.Month(1 + (a+inst)%12)
+	case "filemode":
+		return os.FileMode(0o600 + uint32((a+inst)%64))
+	case "named-string":
+		return c16Str("named" + salt)
+	case "named-bool":
+		return c16Bool((a+inst)%2 == 0)
 	case "nested":
 		var v any = "leaf" + salt
 		for i := 0; i < 2+a%5; i++ {
@@ -496,12 +520,23 @@ func checkC16(cc Case, r *simrt.Result) *Outcome {
 			if !sameValue(wv, gm["value"]) {
 				// whose value is it?
 				for j := 0; j < c.Instances; j++ {
-					if _, ov := canon16(mkValue(s, j)); j != i && sameValue(ov, gm["value"]) && !sameValue(ov, wv) {
+					if _, ov := canon16(mkValue(s, j)); j != i && sameValue(ov, gm["value"]) && !sameValue(ov, wv) && !reflect.ValueOf(ov).IsZero() {
 						vl.add("C16/not-isolated", "instance %d: %s %s reads back the value instance %d stored: %#v", i, where, name, j, gm["value"])
 						return
 					}
 				}
 				vl.add("C16/value-changed", "instance %d: %s %s was stored as %s %#v and reads back as %#v, want %#v", i, where, name, s.Kind, mkValue(s, i), gm["value"], wv)
+			}
+		}
+		// isolation, also for what is read through references: every generated string carries its instance's
+		// mark, so no string instance i reads may carry another instance's
+		for _, where := range []string{"props", "headers", "objects", "vars-at-start", "vars-at-end"} {
+			for j := 0; j < c.Instances; j++ {
+				if j != i {
+					if path, found := findMark(obs[where], fmt.Sprintf("#%d", j)); found {
+						vl.add("C16/not-isolated", "instance %d reads a value of instance %d in its %s at %s", i, j, where, path)
+					}
+				}
 			}
 		}
 		atStart, _ := obs["vars-at-start"].(map[string]any)
@@ -555,6 +590,43 @@ func checkC16(cc Case, r *simrt.Result) *Outcome {
 	}
 	o.Sample = map[string]any{"instances": c.Instances, "conc": c.Conc, "vars": c.Vars, "results": c.Results, "objects": c.Objects, "props": c.Props}
 	return o
+}
+
+// findMark looks for a string ending in (or containing) mark anywhere inside v.
+func findMark(v any, mark string) (string, bool) {
+	switch x := v.(type) {
+	case string:
+		// marks are "#<n>": make sure "#1" does not match "#10"
+		for i := strings.Index(x, mark); i >= 0; {
+			end := i + len(mark)
+			if end == len(x) || x[end] < '0' || x[end] > '9' {
+				return "", true
+			}
+			j := strings.Index(x[end:], mark)
+			if j < 0 {
+				break
+			}
+			i = end + j
+		}
+	case map[string]any:
+		keys := make([]string, 0, len(x))
+		for k := range x {
+			keys = append(keys, k)
+		}
+		sort.Strings(keys)
+		for _, k := range keys {
+			if p, ok := findMark(x[k], mark); ok {
+				return "." + k + p, true
+			}
+		}
+	case []any:
+		for i, e := range x {
+			if p, ok := findMark(e, mark); ok {
+				return fmt.Sprintf("[%d]%s", i, p), true
+			}
+		}
+	}
+	return "", false
 }
 
 func keysOf(m map[string]any) []string {
